@@ -77,6 +77,9 @@ func searchCase(c *fw.Ctx, r *rand.Rand, i int, budget float64, maxDepth int) (r
 		}
 	}
 	cfg = searchCfgs[r.Intn(len(searchCfgs))]
+	if root.tag == "stalemate-resource" {
+		cfg = searchCfgs[[]int{2, 3, 4, 0}[r.Intn(4)]] // quiescence leaves mostly: the stalemate is met at or below the horizon
+	}
 	if root.tag == "matingnet" {
 		// forced mates of several lengths: full exploration, more depth
 		cfg = searchCfgs[[]int{0, 1, 2, 9}[r.Intn(4)]]
@@ -95,6 +98,9 @@ func searchCase(c *fw.Ctx, r *rand.Rand, i int, budget float64, maxDepth int) (r
 		bud /= 8
 	}
 	depth = depthFor(n0, n1, bud, maxDepth)
+	if root.tag == "stalemate-resource" && r.Intn(4) != 0 {
+		depth = 1 + r.Intn(3) // the stalemate must be met at the horizon, where quiescence has to recognise it
+	}
 	return root, cfg, depth, true
 }
 
